@@ -210,6 +210,10 @@ class Types:
     def _cl(self, t):
         t = t.strip()
         t = re.sub(r'^typename ', '', t)
+        # libstdc++ spells a container's reference type through its allocator traits (list::front(), vector::back(), ...)
+        m = re.match(r'^__gnu_cxx::__alloc_traits<std::allocator<(.+)>, (.+)>::value_type$', t)
+        if m and m.group(1).strip() == m.group(2).strip():
+            t = m.group(1).strip()
         if t in U64:
             return T('u64', 'uint64_t')
         if t in ('long', 'long int', 'int64_t'):
@@ -1179,6 +1183,10 @@ class FuncEmitter:
             init = [x for x in d['inner'] if x['kind'] != 'BindingDecl']
             binds = [x for x in d['inner'] if x['kind'] == 'BindingDecl']
             fields = {'pair': ['first', 'second'], 'pairkopt': ['first', 'second'], 'pairkb': ['first', 'second'], 'mapnode': ['first', 'second'], 'tuple3': ['_0', '_1', '_2'], 'emplres': ['first', 'second']}.get(t.k)
+            if t.k == 'record':
+                # a struct decomposes into its data members in declaration order
+                rf = self.cx.records.get('%s__%s' % (self.cx.name, t.rec))
+                fields = [f[0] for f in rf] if rf else None
             if not fields or len(fields) != len(binds):
                 abort('structured binding over a type without a rule: ' + t.src, d)
             name = self.fresh('decomp')
@@ -1549,6 +1557,10 @@ class FuncEmitter:
                 return '%s_reserve(&%s, %s)' % (v['T'].c, v['c'], self.expr(args[0]))
             if name == 'emplace_back' and len(args) == 2:
                 return '%s_emplace_back(&%s, %s, %s)' % (v['T'].c, v['c'], self.expr(args[0]), self.expr(args[1]))
+            if name == 'push_back' and len(args) == 1:
+                kv = self.pair_parts(args[0])
+                if kv:
+                    return '%s_emplace_back(&%s, %s, %s)' % (v['T'].c, v['c'], kv[0], kv[1])
             if name == 'empty' and not args:
                 return '(%s.size == 0)' % v['c']
             if name == 'size' and not args:
@@ -1638,6 +1650,12 @@ class FuncEmitter:
                 if name in ('push_back',) and len(A) == 1:
                     return '%s_emplace_back(%s, &%s, %s)' % (m.name, P, b, A[0])
                 if name in ('insert', 'emplace') and len(A) == 2 and self.cls(args[0]).k == 'iter' and m.el.k != 'record':
+                    return '%s_emplace(%s, &%s, %s, %s)' % (m.name, P, b, A[0], A[1])
+                if name == 'emplace' and len(A) >= 2 and self.cls(args[0]).k == 'iter' and m.el.k == 'record':
+                    # emplace(pos, ctor args...): the element constructor initialises the fields positionally
+                    self.check_positional_ctor(m.el, len(A) - 1, e)
+                    return '%s_emplace(%s, &%s, %s, (%s){%s})' % (m.name, P, b, A[0], self.ctype(m.el), ', '.join(A[1:]))
+                if name == 'insert' and len(A) == 2 and self.cls(args[0]).k == 'iter' and m.el.k == 'record':
                     return '%s_emplace(%s, &%s, %s, %s)' % (m.name, P, b, A[0], A[1])
                 if name in ('push_front', 'emplace_front') and len(A) == 1 and m.el.k != 'record':
                     return '%s_emplace(%s, &%s, %s_begin(%s, &%s), %s)' % (m.name, P, b, m.name, P, b, A[0])
